@@ -3436,16 +3436,27 @@ def fixed_rank_search(vs):
     prefixes = ["দাদ", "দিদ", "কু", "বু", "সু", "মৃ", "দীক্ষ", "আম", "কর", "ামি", "াম", "িন", "েক", "োন"]
     scs = []
     meta = []
+    ck = char_keys()
     for trad in (True, False):
         for pfx in prefixes:
-            cfg = {"layout_json": {"Key_a_Normal": pfx}, "database": REPO + "/data", "opts": {"fixed_suggestion": True, "kar": trad, "vowel": False}}
-            scs.append({"steps": [{"op": "new", "config": cfg}, {"op": "key", "key": 0xA096}, {"op": "get_state"}]})
+            if pfx[0] in "ািীুূৃেৈোৌ":
+                # one key per character (a key value of several characters that starts with a sign is cut down to the sign)
+                letters = "abcdefgh"
+                lay = {"Key_%s_Normal" % letters[i]: ch for i, ch in enumerate(pfx)}
+                cfg = {"layout_json": lay, "database": REPO + "/data", "opts": {"fixed_suggestion": True, "kar": trad, "vowel": False}}
+                scs.append({"steps": [{"op": "new", "config": cfg}] + [{"op": "key", "key": ck[letters[i]]} for i in range(len(pfx))] + [{"op": "get_state"}]})
+            else:
+                cfg = {"layout_json": {"Key_a_Normal": pfx}, "database": REPO + "/data", "opts": {"fixed_suggestion": True, "kar": trad, "vowel": False}}
+                scs.append({"steps": [{"op": "new", "config": cfg}, {"op": "key", "key": 0xA096}, {"op": "get_state"}]})
             meta.append((pfx, trad))
     res = run_replay(scs)
     for (pfx, trad), sc, r in zip(meta, scs, res):
-        rr = r["results"]
-        if "panic" in rr[1]:
-            return sc, rr[1], "fixed mode: composing %r panics: %s" % (pfx, rr[1]["panic"]), None
+        rr = [r["results"][0], r["results"][-2], r["results"][-1]]
+        if any("panic" in x for x in r["results"]):
+            px = [x for x in r["results"] if "panic" in x][0]
+            return sc, px, "fixed mode: composing %r panics: %s" % (pfx, px["panic"]), None
+        if rr[2].get("state", {}).get("buffer") != pfx:
+            continue
         ranks = rr[2]["state"]["suggestions"]
         others = [(t, n) for k, t, n in ranks if k == 2]
         for t, n in others:
